@@ -16,8 +16,7 @@ package decode
 //@ func decodeSize
 //@   safety[C02]
 //@   let n = sizeFieldSize(mem(b), lo(b), hi(b))
-//@   ensures len(b) > 0 && b[len(b)-1] == 255 ==> result1 == 0 - 1 && result0 == 0
-//@   ensures (len(b) == 0 || b[len(b)-1] != 255) && n < 0 ==> result1 == 0 && result0 == 0
+//@   ensures n < 0 ==> result1 == 0 - 1 && result0 == 0
 //@   ensures n >= 1 ==> result1 == n && result0 == varintVal(mem(b), hi(b), n)
 
 //@ func DecodeType
